@@ -16,6 +16,9 @@ from . import ast as A
 from . import templates as TM
 
 DECL = re.compile(r"^\s*(local|declare|typeset)\s+-[aA]\s+[\w{}$]+")
+# fish: the within-word tables are GLOBAL variables (`set --global subword_X ..`, written through a scope hole `set {scope}X ..`) that
+# each wrapper call overwrites; a table that is not written for one automaton keeps the entries the previous call left there
+DECL_FISH = re.compile(r"^\s*set\s+(?:(?:--global|-g)\s+[\w{}$]+|\{\w+\}[\w{}$]+)")
 
 
 def _is_flag(repo, fn, envs, c):
@@ -42,9 +45,68 @@ def _is_option_presence(c):
     return c["k"] == "Let" and c["pat"]["k"] == "PTupleStruct" and c["pat"]["path"].split("::")[-1] == "Some"
 
 
+def _bool_param(fn, envs, c, env=None):
+    neg = False
+    while c["k"] in ("Paren",) or (c["k"] == "Unary" and c.get("op") == "!"):
+        c = c["expr"]
+    if c["k"] != "Path" or "::" in c["path"]:
+        return False
+    t = A.resolve(c, env or envs.get(id(c)) or A.fn_env(fn))
+    return t[0] == "param" and isinstance(t[1], int) and t[1] < len(fn.params) and "".join((fn.params[t[1]].get("ty") or "").split()) == "bool"
+
+
+def _optional_tables_follow_flags(repo, res, rule):
+    """The exemption above (`if let Some(t) = &tables.<field>` may guard a declaration) is sound only if an optional table is present
+    exactly when the emitter's guard flag says so -- the same flag that guards the reader.  In the module that builds the tables:
+    every place that yields `None` for a table stands under a test of one bool PARAMETER alone (no data in the condition), and the
+    bool parameters are handed from builder to builder unchanged (not narrowed by `flag && <something about this automaton>`)."""
+    n = 0
+    fns = sorted(repo.fns_in("tables"), key=lambda f: f.node["l"])
+    names = {f.name: f for f in fns}
+    for fn in fns:
+        envs = A.collect_envs(fn)
+        pm = A.parent_map(fn.body)
+        k = 0
+        for x in A.walk(fn.body):
+            if x["k"] == "Path" and x["path"] == "None" and id(x) in pm and pm[id(x)][0]["k"] in ("Break", "Return", "ExprStmt", "Local", "Arm", "FieldInit"):
+                gs = [g for g, role in A.guards_of(x, pm) if g["k"] == "If"]
+                if not gs:
+                    continue  # an unconditional None (a table this shell never has)
+                k += 1
+                n += 1
+                c = gs[0]["cond"]
+                ok = _bool_param(fn, envs, c)
+                res.check(ok, rule, f"{rule}:tables::{fn.name}:flag-decides-presence#{k}", f"`None` for an optional table under `{' '.join(repo.text(fn.file, c).split())[:60]}`" + ("" if ok else
+                          ": the table is left out on a condition that is not one guard flag alone -- the emitted reader (guarded by the flag) then finds no table of its own and reads the caller's"), f"{fn.file}:{x['l']}")
+        k = 0
+        for c in A.walk(fn.body):
+            if c["k"] == "Call" and c["func"]["k"] == "Path" and c["func"]["path"].split("::")[-1] in names:
+                callee = names[c["func"]["path"].split("::")[-1]]
+                for i, prm in enumerate(callee.params):
+                    if "".join((prm.get("ty") or "").split()) == "bool" and i < len(c["args"]):
+                        k += 1
+                        n += 1
+                        a = c["args"][i]
+                        ok = _bool_param(fn, envs, a, envs.get(id(c))) or (a["k"] == "Lit" and a.get("lit") == "bool")
+                        res.check(ok, rule, f"{rule}:tables::{fn.name}:flags-passed-unchanged#{k}", f"{callee.name}(.., {prm['name']} = {' '.join(repo.text(fn.file, a).split())[:40]})" + ("" if ok else
+                                  ": the flag handed on is not the caller's own flag parameter: a table may be missing although the emitter's flag (and so the emitted reader) says it is there"), f"{fn.file}:{c['l']}")
+    return n
+
+
 def declguard_rule(repo, res, modules=("bash",), rule="DECLGUARD", advisory_modules=()):
     n = 0
     seq = {}
+    # fish: the globals that the completion function empties before every within-word call (`set --global subword_X` with no value)
+    # start each call empty, so writing them only when there is something to write is harmless
+    cleared = set()
+    if "fish" in tuple(modules) + tuple(advisory_modules):
+        for fn in repo.fns_in("fish"):
+            for s in TM.fmt_sites(fn, A.collect_envs(fn)):
+                for line in s.template.split("\n"):
+                    m = re.match(r"^\s*set\s+(?:--global|-g)\s+subword_(\w+)\s*$", line)
+                    if m:
+                        cleared.add(m.group(1))
+    n += _optional_tables_follow_flags(repo, res, rule)
     for mod in tuple(modules) + tuple(advisory_modules):
         for fn in sorted(repo.fns_in(mod), key=lambda f: f.node["l"]):
             envs = A.collect_envs(fn)
@@ -53,9 +115,14 @@ def declguard_rule(repo, res, modules=("bash",), rule="DECLGUARD", advisory_modu
                 if s.macro not in ("write", "writeln"):
                     continue
                 first_line = s.template.lstrip("\n").split("\n")[0]
-                if not DECL.match(first_line):
-                    continue
-                name = mod + "." + re.sub(r"\{[^}]*\}", "N", first_line.split("=")[0].split()[-1])
+                if mod == "fish":
+                    if not DECL_FISH.match(first_line):
+                        continue
+                    name = mod + "." + re.sub(r"\[.*$", "", re.sub(r"\{[^}]*\}", "N", [w for w in first_line.split() if not w.startswith("-")][1]))
+                else:
+                    if not DECL.match(first_line):
+                        continue
+                    name = mod + "." + re.sub(r"\{[^}]*\}", "N", first_line.split("=")[0].split()[-1])
                 n += 1
                 seq[name] = seq.get(name, 0) + 1
                 bad = []
@@ -71,8 +138,10 @@ def declguard_rule(repo, res, modules=("bash",), rule="DECLGUARD", advisory_modu
                     # only guards inside the same loop body matter (a `continue` skips this declaration for one element)
                     if kind == "if" and any(x["k"] == "Continue" for x in A.walk(st)):
                         bad.append("after `if " + " ".join(repo.text(fn.file, c).split())[:60] + " { continue }`")
+                if mod == "fish" and bad and name.split(".", 1)[1].lstrip("N") in cleared:
+                    bad = []
                 key = f"{rule}:{name}#{seq[name]}"
-                msg = f"`{first_line.strip()[:60]}` is emitted " + ("unconditionally or under guard flags / optional-table presence only" if not bad else f"only {bad}: for an automaton where that does not hold the reader finds no table of its own -- in bash it then reads the caller's table of the same name")
+                msg = f"`{first_line.strip()[:60]}` is emitted " + ("unconditionally or under guard flags / optional-table presence only" if not bad else f"only {bad}: for an automaton where that does not hold the reader finds no table of its own -- in bash / zsh it then reads the caller's table of the same name, in fish the global one the previous within-word call left behind")
                 if mod in advisory_modules:
                     if bad:
                         res.advisory(f"{rule} ({mod}, not decided: no parser for this shell here): {msg}")
